@@ -20,15 +20,18 @@ Inductive case :=
      (exit : option N)                              (* instant the task returned; None = it did not *)
      (final_gen : N) (racing : N)                   (* WriteGen at the end; writes made by the store side *)
      (final_bid : N)                                (* identifier of the bytes of the live file at the end (0 = never uploaded) *)
+     (rf : list (N * N))                            (* intervals during which the database file could not be read (moved aside /
+                                                       a directory in its place) *)
 (* the task as started by the real server.New (bucket configured, the context given to New
    cancelled at c), observed in real time from outside: same observables, except that the
    instant the task returns cannot be seen - only that no request arrives after c *)
 | ScW (prior evs : list dbev) (rs : list N) (c : N) (ups : list obs_upload) (bids : list N)
-      (final_gen final_bid : N).
+      (final_gen final_bid : N) (rf : list (N * N)).
 
 (* which calls are writes is the MODEL's verdict: the store model is run over the calls *)
-Definition timeline_of (prior evs : list dbev) (rs : list N) (sc : list upl) (c : N) : timeline :=
-  {| writes := fst (classify (snd (classify [] prior)) evs) ++ map (fun w => (w, false)) rs; script := sc; cancel := c |}.
+Definition timeline_of (prior evs : list dbev) (rs : list N) (sc : list upl) (c : N) (rf : list (N * N)) : timeline :=
+  {| writes := fst (classify (snd (classify [] prior)) evs) ++ map (fun w => (w, false)) rs; script := sc; cancel := c;
+     read_faults := rf |}.
 
 Definition EPut (t : N) (ok : bool) (n : name) (v : N) : dbev := (t, ok, KPut n v).
 Definition EAct (t : N) (ok : bool) (n : name) (v : N) : dbev := (t, ok, KSetActive n v).
@@ -47,15 +50,15 @@ Definition upload_beq (x y : obs_upload) : bool :=
   let '(t, g, ok) := x in let '(t', g', ok') := y in (t =? t') && (g =? g') && Bool.eqb ok ok'.
 
 Definition check_run (exit_seen : bool) (prior evs : list dbev) (rs : list N) (sc : list upl) (c : N)
-           (ups : list obs_upload) (bids : list N) (ex : option N) (fg racing fbid : N) : bool :=
-  let tl := timeline_of prior evs rs sc c in
+           (ups : list obs_upload) (bids : list N) (ex : option N) (fg racing fbid : N) (rf : list (N * N)) : bool :=
+  let tl := timeline_of prior evs rs sc c rf in
   let okw := ok_writes tl in
   match backup_run tl with
   | None => false
   | Some (its, x) =>
-      list_beq upload_beq (map obs_of (attempts its)) ups
+      list_beq upload_beq (map obs_of (sent its)) ups
       && (if exit_seen then option_beq N.eqb (Some x) ex else true)
-      && mon_first ups && mon_rate ups && mon_change 0 ups && mon_snapshot okw racing ups
+      && (mon_first ups || read_fails rf 0) && mon_rate ups && mon_change 0 ups && mon_snapshot okw racing ups
       (* two consecutive acknowledged uploads never carry identical bytes *)
       && Nat.eqb (length bids) (length ups)
       && mon_bytes None (combine (map (fun u : obs_upload => snd u) ups) bids)
@@ -70,6 +73,6 @@ Definition check_run (exit_seen : bool) (prior evs : list dbev) (rs : list N) (s
 
 Definition check (cs : case) : bool :=
   match cs with
-  | Sc prior evs rs sc c ups bids ex fg racing fbid => check_run true prior evs rs sc c ups bids ex fg racing fbid
-  | ScW prior evs rs c ups bids fg fbid => check_run false prior evs rs [] c ups bids None fg 0 fbid
+  | Sc prior evs rs sc c ups bids ex fg racing fbid rf => check_run true prior evs rs sc c ups bids ex fg racing fbid rf
+  | ScW prior evs rs c ups bids fg fbid rf => check_run false prior evs rs [] c ups bids None fg 0 fbid rf
   end.
